@@ -93,7 +93,16 @@ impl SegmentBlock {
     }
 
     pub fn read_record(&self, start_offset: u64) -> Result<Option<Record>, ReadError> {
-        let offset = (start_offset - self.offset) as usize;
+        // The block may start after the requested offset (e.g. reverse iteration walking back
+        // out of a cached block): that is out of bounds for this block, not an arithmetic error.
+        let Some(offset) = start_offset.checked_sub(self.offset) else {
+            return Err(ReadError::Reader(seglog::read::ReadError::OutOfBounds {
+                offset: start_offset,
+                length: 0,
+                flushed_offset: self.offset,
+            }));
+        };
+        let offset = offset as usize;
         let ([confirmation_count_byte], bytes, record_len) =
             seglog::parse::parse_record::<CONFIRMATION_HEADER_SIZE>(&self.block, offset)?;
 
